@@ -319,6 +319,7 @@ func checkC01(c *Ctx, r *Report) {
 	r.rule("C01.R5", "accounting cells of the subscriber are written only by the listed writers; the balance only by the CCR handler", 4)
 	r.rule("C01.R8", "every rating group is rated and debited under its own identifier and with numbers of full width: neither server narrows a look-up key taken from the request or a number parsed from the database (shared with C07.R7/C08.R6)", 4)
 	r.rule("C01.R9", "the clients wait the specified 5 s for an answer: the account server moves the money before it answers, so an answer that arrives within 5 s must still be taken (a shorter wait abandons a debit that has happened - the reservation is never booked)", 2)
+	r.rule("C01.R10", "a rating group is charged from its first report on and keeps its mode afterwards: FindRatingGroup tests membership in the subscriber's list of groups, element by element", 1)
 	r.rule("C01.R7", "the reserve step and the debit step of a rating group exclude each other within one request (the mode is not re-read after it may have been switched)", 1)
 	r.rule("C01.R6", "account server stores the balance before it answers (shared with C07.R5)", 1)
 
@@ -498,6 +499,7 @@ func checkC01(c *Ctx, r *Report) {
 			r.proven("C01.R9", fnKey(cf)+"|time-out of the wait", c.rel(cf.Pos()), "the wait is not a select on a time.After / time.NewTimer constant: nothing to compare with the 5 s here (C19.R6 decides whether the wait is bounded)")
 		}
 	}
+	checkFindRatingGroup(c, r, "C01.R10")
 	abmfWidthRules(c, r, "C01.R8")
 	rfWidthRules(c, r, "C01.R8")
 
@@ -792,6 +794,7 @@ func checkC06(c *Ctx, r *Report) {
 	r.rule("C06.R4", "account server grants min(request, balance) (shared with C07.R1)", 4)
 	r.rule("C06.R7", "the money a grant is measured against is that of the request's own subscriber and rating group, in full width (shared with C07.R7/C08.R6)", 4)
 	r.rule("C06.R8", "the CHF turns money into units with the unit cost the rating function applied (shared with C08.R3): a smaller decoded cost grants more units than the reserved money buys", 2)
+	r.rule("C06.R9", "a rating group keeps the debit mode (and with it the final-unit state) it was put in: FindRatingGroup finds every group of the subscriber's list (shared with C01.R10)", 1)
 	r.rule("C06.R6", "the reservation, unit-cost and mode cells are changed only by the accounting transitions the other rules describe, and the context that holds them is not dropped on the request path (shared with C01.R5)", 4)
 	r.rule("C06.R5", "the rating function converts reserved money into units by floor division: AllowedUnits = quota div unit cost, Price = units x unit cost (shared with C08.R2)", 2)
 
@@ -995,6 +998,7 @@ func checkC06(c *Ctx, r *Report) {
 
 	// ---- R5: the CHF trusts the rating function to turn money into units
 	rfRules(c, r, "", "C06.R5", "", "", "C06.R5")
+	checkFindRatingGroup(c, r, "C06.R9")
 	rfWidthRules(c, r, "C06.R7")
 	abmfWidthRules(c, r, "C06.R7")
 	checkCellWriters(c, r, "C06.R6")
